@@ -8,6 +8,7 @@ import vlib
 sys.path.insert(0, os.path.join(vlib.ROOT, "lib"))
 import c13lang  # noqa: E402
 import c13machine  # noqa: E402
+import c10sweep  # noqa: E402
 
 SLOT = 24  # unsafe.Sizeof(value.Value)
 
@@ -123,7 +124,10 @@ def run(ctx):
         "without its growth operations on a 4096-slot Thread and requires identical reads. NOT PROVED, only differential-tested (stream "
         "c10.env): everything outside the value stack (thread pool / queue / symbol-table presize / call-stack size), generators and "
         "async frames; growth is only triggered at calls (70% rule), so a single frame needing more than 30% of the stack still "
-        "overflows silently - outside the model and outside what the generated programs reach.")
+        "overflows silently - outside the model and outside what the generated programs reach. Constructs of the run loop that "
+        "hold a slot pointer across a nested call (opNext, interpolation, operator calls, native callbacks) are NOT in the Coq "
+        "machine: C10_stale_slot_address_refuted only shows on the model that a write through a slot address cached before a "
+        "growth is lost; the Go code is covered at implementation level by the depth sweep x construct family of c10.env.")
     ctx.trusted_base += ["uintptr arithmetic modelled in unbounded Z (no wrap at 2^64); Go allocator returns an arbitrary new base",
                          "Python reference interpreter lib/c13lang.py (store semantics) as expected-output oracle for c10.env",
                          "value.ValueSize = 24 bytes (checked by the stream: sizes below 24 are the <1slot class)",
@@ -155,6 +159,31 @@ def run(ctx):
         exp += sexp
         for env in sample_configs(prng, ncfg):
             items.append(("gen:c10:%d" % seed, src, exp, env, p["features"] + ["depth%d" % (depth // 100 * 100)]))
+    # second-generation closure programs incl. errors unwinding frames with live captured locals (profile c10c)
+    for i in range(ctx.n(6, 200)):
+        seed = rng.next() & 0x7FFFFFFF
+        prng = vlib.SplitMix(seed)
+        p = c13lang.gen_program(prng, "c10c")
+        exp, depth = c13lang.interp(p)
+        if exp is None or len(exp) > 60000:
+            skipped += 1
+            continue
+        src = c13lang.to_elk(p)
+        for env in sample_configs(prng, 3):
+            items.append(("gen:c10c:%d" % seed, src, exp, env, p["features"] + ["depth%d" % (depth // 100 * 100)]))
+    # depth sweep x construct: every stack-pointer-caching construct at every level of a recursion that passes the
+    # growth thresholds, per initial stack size of the lattice, frames shifted by `offset` dummy slots
+    sweep_cases = 0
+    for rep in range(ctx.n(1, 5)):
+        for cons in c10sweep.constructs():
+            k, pad = rng.range(2, 7), rng.range(0, 3)
+            depth = c10sweep.depth_for(pad)
+            for size in c10sweep.SIZES + ([None] if rep == 0 else []):
+                for off in ([rng.range(0, 9)] if ctx.tier == "quick" else [rng.range(0, 4), rng.range(5, 9)]):
+                    src, exp = c10sweep.program(cons, k, pad, depth, off)
+                    env = {"ELK_INIT_VALUE_STACK_SIZE": size} if size else {}
+                    items.append(("sweep:%s:k%d:pad%d:depth%d:offset%d" % (cons, k, pad, depth, off), src, exp, env, ["sweep", cons]))
+                    sweep_cases += 1
     jobs = []
     for n, (name, src, exp, env, feats) in enumerate(items):
         jobs.append(("j%d" % n, src, env))
@@ -182,7 +211,9 @@ def run(ctx):
             continue
         if len(samples) < 4:
             samples.append({"program": name, "env": env, "features": feats[:8], "stdout_head": out[:60]})
-        if env and any(f.startswith(("deep", "recursive", "depth", "corpus")) for f in feats):
+        if feats[0] == "sweep":
+            dist["sweep:" + feats[1]] = dist.get("sweep:" + feats[1], 0) + 1
+        if (env or feats[0] == "sweep") and any(f.startswith(("deep", "recursive", "depth", "corpus", "sweep")) for f in feats):
             distinct.add((name, json.dumps(env, sort_keys=True)))
         bad = None
         if rc != 0 or out != exp:
@@ -198,6 +229,9 @@ def run(ctx):
             ic = "init-default" if iv is None or iv == "24000" else ("init<1slot" if int(iv) < SLOT else ("init-small" if int(iv) < 24000 else "init-large"))
             # canonical class: kind of failure x class of the initial stack size (the other variables only ride along)
             key = "%s:%s" % (oc, ic)
+            if feats[0] == "sweep":
+                # canonical class: the construct under which the stack was reallocated x kind of failure
+                key = "sweep:%s:%s" % (feats[1], oc)
             ctx.fail(key, "%s under %s: %s (exit %d, outcome %s; default run outcome %s)" % (name, env or "default config", bad[1], rc, cls, dcls),
                      stream="c10.env", case={"program": name, "env": env, "source": src if len(src) < 6000 else src[:6000]},
                      impl=out[-1500:], model=exp[-600:], oracle=bad[1])
@@ -205,5 +239,15 @@ def run(ctx):
                "generated deterministic programs (closures alive across deep method recursion, recursive closures with captured locals, "
                "loops of every kind capturing their variables, async tasks + generator suffix) x lattice of the six ELK_* size variables; "
                "stdout+exit must equal the reference interpreter's output AND the default-configuration run; runs that hit a configured "
-               "limit are excluded; non-trivial = non-default configuration on a program with deep recursion; %d corpus cases first" % ncorpus,
-               samples, dist, mismatches=fails, excluded_limit=excluded, skipped_too_big=skipped, corpus_cases=ncorpus)
+               "limit are excluded; non-trivial = non-default configuration on a program with deep recursion; %d corpus cases first. "
+               "Plus profile c10c (errors thrown 1-7 frames below caught in frames with live captured locals; labelled exits from "
+               "inner loops) and the DEPTH SWEEP x CONSTRUCT family (lib/c10sweep.py, %d runs): one construct that keeps a stack "
+               "pointer across a nested bytecode call per program (for-in over a user-defined iterator / iterable, closure calls, "
+               "string interpolation calling to_string, operator / subscript / predicate methods of user classes, native map / fold "
+               "/ filter calling back bytecode closures with and without captured writes, nested call arguments, error unwinding, "
+               "tail calls; the helper they call takes 2-7 extra arguments) executed at EVERY level of a recursion deep enough to "
+               "pass 70 %% of 256/512 slots (and of the other lattice sizes and their doubles), per ELK_INIT_VALUE_STACK_SIZE in "
+               "{1, 6400, 6800, 7200, 9000, 12000, unset} with 0-9 dummy top-level slots shifting the frames; expected output "
+               "computed in Python per level" % (ncorpus, sweep_cases),
+               samples, dist, mismatches=fails, excluded_limit=excluded, skipped_too_big=skipped, corpus_cases=ncorpus,
+               sweep_runs=sweep_cases)
